@@ -23,7 +23,8 @@ import (
 // the harness (ticker = VerifTick, receive = VerifTakeFlushNow, then Flush);
 // an optional thread calls Flush directly. Each schedule step runs one thread
 // from one yield point to the next. After the schedule every thread runs free
-// with a 1 ms ticker for up to 2 s.
+// for up to 2 s and the store is STARTED: the library's own Store.run goroutine,
+// with a 1 ms ticker, is the flusher of that phase.
 
 type frScen struct {
 	Schedule [][2]string `json:"schedule"`
@@ -63,7 +64,7 @@ func flushrateOne(dir string, tr *core.Tracer, sc *frScen) (int, error) {
 	}
 	defer os.RemoveAll(d)
 	st, err := store.OpenStore(context.Background(), store.MultihashPrimary, filepath.Join(d, "data"), filepath.Join(d, "index"), false,
-		store.IndexBitSize(8), store.GCInterval(0), store.SyncInterval(24*time.Hour), store.BurstRate(0))
+		store.IndexBitSize(8), store.GCInterval(0), store.SyncInterval(time.Millisecond), store.BurstRate(0)) // the interval only matters once Start is called (free run)
 	if err != nil {
 		return 0, err
 	}
@@ -181,34 +182,12 @@ func flushrateOne(dir string, tr *core.Tracer, sc *frScen) (int, error) {
 		}
 		step(th, name)
 	}
-	// free run: every thread proceeds on its own, ticker every millisecond
+	// free run: every thread proceeds on its own
 	emit("free", nil)
 	quit.Store(true)
 	s.Free()
-	stop := make(chan struct{})
-	var wg sync.WaitGroup
-	wg.Add(1)
-	go func() {
-		defer wg.Done()
-		for {
-			select {
-			case <-stop:
-				return
-			case <-time.After(time.Millisecond):
-			}
-			st.VerifTick()
-			if st.VerifTakeFlushNow() {
-				func() {
-					defer func() {
-						if r := recover(); r != nil {
-							emit("pt", core.Ev{"th": "f", "p": fmt.Sprint("panic: ", r), "seq": 0})
-						}
-					}()
-					st.Flush()
-				}()
-			}
-		}
-	}()
+	// the REAL flusher goroutine (Store.run) with a 1 ms ticker takes over from the harness-played one
+	st.Start()
 	deadline := time.Now().Add(2 * time.Second)
 	for time.Now().Before(deadline) {
 		all := true
@@ -220,8 +199,6 @@ func flushrateOne(dir string, tr *core.Tracer, sc *frScen) (int, error) {
 		}
 		time.Sleep(2 * time.Millisecond)
 	}
-	close(stop)
-	wg.Wait()
 	stuck := []string{}
 	for _, w := range sc.Writers {
 		if !threads[w].IsDone() {
